@@ -55,14 +55,39 @@ def ser_node(n):
     return [1] + ser_str(n[1]) + ser_list(ser_node, n[2])
 
 
-def pack_obs(kind, stdout, prefix, tree):
-    """what the implementation did, in the form the model's result is serialised"""
+def pack_obs(kind, stdout, prefix, tree, model_prefix=None):
+    """what the implementation did, in the form the model's result is serialised (the model prints with the wording of
+    the pinned tree, `model_prefix`; the paths are what is compared)"""
     if kind != 0:
         return pack([kind])
     chunks = U.split_lines(stdout, prefix)
     if chunks is None:
         return pack([9])
-    return pack([0] + ser_list(ser_str, sorted(prefix + c for c in chunks)) + ser_list(ser_node, tree))
+    return pack([0] + ser_list(ser_str, sorted((model_prefix or prefix) + c for c in chunks)) + ser_list(ser_node, tree))
+
+
+_WORDING = {}
+
+
+def wording(flag):
+    """The text `cond gc` puts before a path ("Would delete " with -n, "Deleting " with -v), learnt from the code under
+    test on a reference project with a single unrecorded output; the pinned tree's wording when that output has another shape."""
+    default = {"-n": "Would delete ", "-v": "Deleting "}[flag]
+    if flag not in _WORDING:
+        val = default
+        try:
+            root = implrun.make_project({"COND": ""})
+            implrun.run_cond(["gc"], root)
+            os.makedirs(os.path.join(root, "cond-out", "zq.task.7"))
+            r = implrun.run_cond(["gc", flag], root)
+            tail = "cond-out/zq.task.7\n"
+            if r.code == 0 and r.out.endswith(tail) and r.out.count("\n") == 1 and len(r.out) > len(tail):
+                val = r.out[: -len(tail)]
+            shutil.rmtree(os.path.dirname(root), ignore_errors=True)
+        except Exception:  # pylint: disable=broad-except
+            val = default
+        _WORDING[flag] = val
+    return _WORDING[flag]
 
 
 class Runner:
@@ -175,7 +200,7 @@ class Runner:
                 ok = False
                 diff = U.snap_diff(snap0, snap1)
                 bad("gc -n changed the file system: %s" % (diff[:5],), dirname=U.last_name(diff))
-            got = U.split_lines(r_dry.out, "Would delete ")
+            got = U.split_lines(r_dry.out, wording("-n"))
             if got is None or sorted(got) != exp_paths:
                 ok = False
                 d = U.first_diff(exp_paths, got or [])
@@ -190,7 +215,7 @@ class Runner:
                 diff = U.snap_diff(want_snap, snap2)
                 bad("after gc the tree differs from (before minus unrecorded experiment outputs) at %s" % (diff[:5],), dirname=U.last_name(diff))
             if verbose:
-                got_v = U.split_lines(r_real.out, "Deleting ")
+                got_v = U.split_lines(r_real.out, wording("-v"))
                 if got_v is None or sorted(got_v) != exp_paths:
                     ok = False
                     bad("gc -v printed %r but deleted %r" % (sorted(got_v or [r_real.out])[:6], exp_paths[:6]))
@@ -200,8 +225,8 @@ class Runner:
         # --- model comparison (queued; evaluated in one Coq run per shard)
         tree_c = U.ctree(tree)
         rows_c = U.crows(rows)
-        self.queue.append(("ser_result (gc_main true %s %s %s)" % (U.cb(verbose), rows_c, tree_c), pack_obs(kind_dry, r_dry.out, "Would delete ", tree), case, "dry", ok))
-        self.queue.append(("ser_result (gc_main false %s %s %s)" % (U.cb(verbose), rows_c, tree_c), pack_obs(kind_real, r_real.out, "Deleting ", after), case, "real", ok))
+        self.queue.append(("ser_result (gc_main true %s %s %s)" % (U.cb(verbose), rows_c, tree_c), pack_obs(kind_dry, r_dry.out, wording("-n"), tree, "Would delete "), case, "dry", ok))
+        self.queue.append(("ser_result (gc_main false %s %s %s)" % (U.cb(verbose), rows_c, tree_c), pack_obs(kind_real, r_real.out, wording("-v"), after, "Deleting "), case, "real", ok))
         # --- coverage bookkeeping
         if key not in self.seen:
             self.seen.add(key)
